@@ -1786,6 +1786,404 @@ def permuted_event(spec, perm):
 
 
 # ---------------------------------------------------------------------------------------
+# form_extreme over events whose categories list different rows (labform stream, Model/ExtremaLabels.lean)
+
+_LABPOOL = ["Fx", "Fy", "Fz", "Mx", "My", "Mz", "Tq", "Ax"]
+_LAB_PATTERNS = ["identical", "permuted", "subset", "disjoint", "overlap", "random", "dup-identical", "dup-differ"]
+
+
+def _lab_lists(rng, pattern, ne):
+    """label lists of `ne` events following an overlap pattern"""
+    nm = rng.randint(max(2, ne if pattern == "disjoint" else 2), 6)
+    master = rng.sample(_LABPOOL, nm)
+    if pattern == "identical":
+        return [list(master) for _ in range(ne)]
+    if pattern == "permuted":
+        out = [list(master)]
+        for _ in range(ne - 1):
+            p = list(master)
+            while p == master:
+                rng.shuffle(p)
+            out.append(p)
+        return out
+    if pattern == "subset":
+        out = []
+        for _ in range(ne):
+            k = rng.randint(1, nm)
+            sub = rng.sample(master, k)
+            if rng.random() < 0.5:
+                sub = [l for l in master if l in sub]  # an ordered subsequence
+            out.append(sub)
+        out[rng.randrange(ne)] = list(master) if rng.random() < 0.5 else rng.sample(master, nm)
+        return out
+    if pattern == "disjoint":
+        pool = list(master)
+        rng.shuffle(pool)
+        cuts = sorted(rng.sample(range(1, nm), ne - 1))
+        return [pool[a:b] for a, b in zip([0] + cuts, cuts + [nm])]
+    if pattern == "overlap":
+        while True:
+            out = [rng.sample(master, rng.randint(1, nm)) for _ in range(ne)]
+            a, b = set(out[0]), set(out[1])
+            if (a & b) and (a - b) and (b - a):
+                return out
+            nm = max(nm, 3)
+            if len(master) < 3:
+                master = rng.sample(_LABPOOL, 3)
+                nm = 3
+    if pattern == "random":
+        return [rng.sample(master, rng.randint(1, nm)) for _ in range(ne)]
+    if pattern == "dup-identical":
+        m = list(master)
+        m.insert(rng.randrange(len(m) + 1), rng.choice(master))
+        return [list(m) for _ in range(ne)]
+    # dup-differ: one event repeats a label and the lists are not all the same
+    out = [rng.sample(master, rng.randint(1, nm)) for _ in range(ne)]
+    k = rng.randrange(ne)
+    out[k] = out[k] + [out[k][0]]
+    if all(o == out[0] for o in out):
+        out[(k + 1) % ne] = out[(k + 1) % ne] + ["Zz"]
+    return out
+
+
+def _lab_base(rng, name, labels, labels2, kind, style):
+    """one base event: `time` (time_data_recovery, 1-3 load cases) or `addmm` (add_maxmin)"""
+    r = len(labels)
+    if kind == "time":
+        nc = rng.randint(1, 3)
+        nt = rng.randint(2, 4)
+        rows = max(r, len(labels2) if labels2 else 0)
+        resp = [[_values(rng, nt, style, 0.0) for _ in range(rows)] for _ in range(nc)]
+        return {"type": "time", "name": name, "labels": labels, "labels2": labels2, "resp": resp, "nt": nt}
+    hasx = rng.random() < 0.5
+    nanp = rng.choice([0.0, 0.2])
+    k = rng.random()
+    maxcase = name + "-mx" if k < 0.5 else ["%s-mx%d" % (name, i) for i in range(r)]
+    k = rng.random()
+    mincase = None if k < 0.4 else (name + "-mn" if k < 0.7 else ["%s-mn%d" % (name, i) for i in range(r)])
+    return {"type": "addmm", "name": name, "labels": labels, "labels2": None,
+            "mxmn": [_values(rng, 2, style, nanp) for _ in range(r)], "maxcase": maxcase, "mincase": mincase,
+            "xv": [[float(rng.randint(0, 9)) for _ in range(2)] for _ in range(r)] if hasx else None}
+
+
+def gen_labform(rng, pattern=None, shape=None):
+    pattern = pattern or rng.choice(_LAB_PATTERNS)
+    shape = shape or rng.choice(["flat", "flat", "nested", "mixedx"])
+    style = rng.choice(["small", "pm", "half"])
+    cnt = [0]
+
+    def name():
+        cnt[0] += 1
+        return "E%d" % cnt[0]
+
+    if shape == "mixedx":
+        # a group of add_maxmin events WITHOUT abscissae (same rows): its envelope has per-case columns and no ext_x;
+        # next to it recovery events (abscissae given) that list other rows -- in either order
+        ne = rng.randint(2, 3)
+        lists = _lab_lists(rng, pattern if not pattern.startswith("dup") else "permuted", ne)
+        g = {"type": "group", "name": "G1", "kids": []}
+        for _ in range(rng.randint(1, 2)):
+            b = _lab_base(rng, name(), list(lists[0]), None, "addmm", style)
+            b["xv"] = None
+            g["kids"].append(b)
+        members = [g] + [_lab_base(rng, name(), lists[k], None, "time", style) for k in range(1, ne)]
+        if rng.random() < 0.5:
+            rng.shuffle(members)
+        return {"kind": "labform", "pattern": pattern, "shape": shape, "members": members, "d": rng.randint(0, 3),
+                "case_order": None, "two": False}
+    ne = rng.randint(2, 4)
+    lists = _lab_lists(rng, pattern, ne)
+    two = rng.random() < 0.3
+    lists2 = _lab_lists(rng, rng.choice(["identical", "permuted", "subset", "overlap"]), ne) if two else None
+    addmm = rng.random() < 0.3
+    bases = []
+    for k in range(ne):
+        kind = "addmm" if (addmm and rng.random() < 0.5) else "time"
+        l2 = None
+        if two and kind == "time" and (k == 0 or rng.random() < 0.7):
+            l2 = lists2[k]
+        bases.append(_lab_base(rng, name(), lists[k], l2, kind, style))
+    if shape == "flat":
+        members = bases
+    else:
+        ng = rng.randint(1, 2)
+        cuts = sorted(rng.sample(range(1, ne + 1), min(ng, ne)))
+        members, prev = [], 0
+        for g, c in enumerate(cuts):
+            if c - prev >= 1 and rng.random() < 0.8:
+                members.append({"type": "group", "name": "G%d" % (g + 1), "kids": bases[prev:c]})
+            else:
+                members += bases[prev:c]
+            prev = c
+        members += bases[prev:]
+        if not any(m["type"] == "group" for m in members):
+            members = [{"type": "group", "name": "G1", "kids": members[:1]}] + members[1:]
+    co = None
+    if rng.random() < 0.25 and len(members) >= 2:
+        co = [m["name"] for m in members]
+        rng.shuffle(co)
+        if len(co) > 2 and rng.random() < 0.4:
+            co = co[:-1]
+    return {"kind": "labform", "pattern": pattern, "shape": shape, "members": members, "d": rng.randint(0, 3),
+            "case_order": co, "two": two}
+
+
+def _lab_build_base(b):
+    from pyyeti import cla
+
+    uf = (1, 1, 1, 1)
+    drdefs = cla.DR_Def(dict(se=0, uf_reds=uf))
+    if b["type"] == "time":
+        rows = len(b["resp"][0])
+        T1 = np.eye(rows)[:len(b["labels"])]
+        drdefs.add(name="cat", desc="toy category", labels=list(b["labels"]), drms={"T1": T1},
+                   drfunc="Vars[se]['T1'] @ sol.d")
+        if b["labels2"]:
+            T2 = -np.eye(rows)[:len(b["labels2"])][:, ::-1]
+            drdefs.add(name="cat2", desc="toy category 2", labels=list(b["labels2"]), drms={"T2": T2},
+                       drfunc="Vars[se]['T2'] @ sol.d")
+        DR = cla.DR_Event()
+        DR.add(None, drdefs)
+        res = DR.prepare_results("mission", b["name"])
+        t = np.arange(b["nt"]) * 0.01
+        n = len(b["resp"])
+        for j in range(n):
+            sol = {uf: SimpleNamespace(d=arr(b["resp"][j]), t=t, h=0.01)}
+            res.time_data_recovery(sol, None, "%s-%d" % (b["name"], j), DR, n, j)
+        return res
+    drdefs.add(name="cat", desc="toy category", labels=list(b["labels"]), drfunc="no-func")
+    DR = cla.DR_Event()
+    DR.add(None, drdefs)
+    res = DR.prepare_results("mission", b["name"])
+    res.add_maxmin("cat", arr(b["mxmn"]), copy.deepcopy(b["maxcase"]), copy.deepcopy(b["mincase"]),
+                   None if b["xv"] is None else arr(b["xv"]), "time")
+    return res
+
+
+def build_labform(spec, order=None):
+    """the nested DR_Results of the spec and the outcome of form_extreme: (top, exception name or None)"""
+    from pyyeti import cla
+
+    def mk(node):
+        if node["type"] != "group":
+            return _lab_build_base(node)
+        g = cla.DR_Results()
+        for kid in node["kids"]:
+            g[kid["name"]] = mk(kid)
+        return g
+
+    with warnings.catch_warnings():
+        warnings.simplefilter("ignore")
+        top = cla.DR_Results()
+        members = spec["members"] if order is None else [spec["members"][i] for i in order]
+        for m in members:
+            top[m["name"]] = mk(m)
+        co = spec["case_order"] if order is None else None
+        try:
+            top.form_extreme("Envelope", case_order=co, doappend=spec["d"])
+        except (ValueError, KeyError) as e:
+            return top, type(e).__name__
+    return top, None
+
+
+def _is_group(res):
+    return len(res) > 0 and not isinstance(next(iter(res.values())), SimpleNamespace)
+
+
+def lab_levels(top, case_order):
+    """the `_calc_extreme` calls of form_extreme in the order they are made: (path, dct, cases)"""
+    out = []
+
+    def walk(dct, path, co):
+        for k, v in dct.items():
+            if k != "extreme" and _is_group(v):
+                walk(v, path + (k,), None)
+        out.append((path, dct, [k for k in dct if k != "extreme"] if co is None else [str(c) for c in co]))
+
+    walk(top, (), case_order)
+    return out
+
+
+def _lab_parts(dct, cases, drm):
+    """(j, case, use_ext, category) for the members that carry `drm`, as `_calc_extreme` reads them"""
+    parts = []
+    for j, case in enumerate(cases):
+        m = dct[case]
+        use_ext = "extreme" in m
+        cur = m["extreme"] if use_ext else m
+        if drm in cur:
+            parts.append((j, case, use_ext, cur[drm]))
+    return parts
+
+
+def _lab_cat_token(j, case, use_ext, c):
+    r = len(c.drminfo.labels)
+    rows = " ".join("%s %s %s %s %s %s" % (ftok(c.ext[i, 0]), _px(c, i, 0), c.maxcase[i], ftok(c.ext[i, 1]), _px(c, i, 1),
+                                           c.mincase[i]) for i in range(r))
+    return "%d %s %d %d %d %d %s %s" % (j, case, 1 if use_ext else 0, 0 if c.ext_x is None else 1,
+                                         1 if hasattr(c, "mx") else 0, r, " ".join(c.drminfo.labels), rows)
+
+
+def _lab_acc_reply(e):
+    rows = []
+    for i in range(len(e.drminfo.labels)):
+        rows.append("%s %s %s %s %s %s , %s , %s , %s , %s" % (
+            ftok(e.ext[i, 0]), _px(e, i, 0), e.maxcase[i], ftok(e.ext[i, 1]), _px(e, i, 1), e.mincase[i],
+            " ".join(ftok(v) for v in e.mx[i]), " ".join(ftok(v) for v in e.mn[i]),
+            " ".join(ftok(v) for v in e.mx_x[i]), " ".join(ftok(v) for v in e.mn_x[i])))
+    return " ".join(e.drminfo.labels) + " | " + ("0" if e.ext_x is None else "1") + " | " + " | ".join(rows)
+
+
+def _lab_step_kinds(parts):
+    """what `_check_row_compatibility` sees at every step: the overlap pattern of (labels so far, next labels)"""
+    kinds = []
+    acc = None
+    for _, _, _, c in parts:
+        l2 = list(c.drminfo.labels)
+        if acc is None:
+            acc = l2
+            continue
+        if acc == l2:
+            kinds.append("identical-repeated" if len(set(l2)) != len(l2) else "identical")
+            continue
+        if len(set(acc)) != len(acc) or len(set(l2)) != len(l2):
+            kinds.append("repeated-refused")
+            break
+        a, b = set(acc), set(l2)
+        if a == b:
+            kinds.append("permuted")
+        elif not (a & b):
+            kinds.append("disjoint")
+        elif b < a:
+            kinds.append("subset")
+        elif a < b:
+            kinds.append("superset-same-order" if [x for x in l2 if x in a] == acc else "superset")
+        else:
+            kinds.append("overlap")
+        if not hasattr(c, "mx"):
+            kinds.append("keyerror-no-mx")
+            break
+        acc = _ref_merge(acc, l2)
+    return kinds
+
+
+def _ref_merge(l1, l2):
+    """the documented merge: l1 keeps its order; a new item of l2 goes in front of the next item of l2 that l1 has"""
+    out = list(l1)
+    pend = []
+    for e in l2:
+        if e in out:
+            i = out.index(e)
+            out[i:i] = pend
+            pend = []
+        else:
+            pend.append(e)
+    return out + pend
+
+
+def labform_run(spec):
+    """requests, expected replies and branch names for one spec"""
+    top, exc = build_labform(spec)
+    reqs, want, branches = [], [], set()
+    levels = lab_levels(top, spec["case_order"])
+    raised_seen = False
+    for path, dct, cases in levels:
+        formed = "extreme" in dct
+        if not formed and raised_seen:
+            break  # levels after the one that raised are never reached
+        cats = []
+        for case in cases:
+            m = dct[case]
+            cur = m["extreme"] if "extreme" in m else m
+            for drm in cur:
+                if drm not in cats:
+                    cats.append(drm)
+        first_err = None  # (j, position of the category in that member) of the first failing step, by the implementation's loop order
+        for drm in cats:
+            parts = _lab_parts(dct, cases, drm)
+            reqs.append("labform %d %d ; " % (spec["d"], len(cases)) + " ; ".join(_lab_cat_token(*p) for p in parts))
+            kinds = _lab_step_kinds(parts)
+            for k in kinds:
+                branches.add("labels-" + k)
+            if len({c.ext_x is None for _, _, _, c in parts}) > 1:
+                branches.add("labels-abscissa-some-events")
+                if any(k not in ("identical", "identical-repeated") for k in kinds):
+                    branches.add("labels-abscissa-some-events-with-merge")
+            if any(u for _, _, u, _ in parts):
+                branches.add("labels-lower-level-envelope")
+            if len(parts) < len(cases):
+                branches.add("labels-category-missing-in-some-event")
+            if formed:
+                want.append(("acc", _lab_acc_reply(dct["extreme"][drm])))
+            else:
+                want.append(("err", exc, drm, dct, cases))
+        if formed and list(dct["extreme"].keys()) != cats:
+            want.append(("cats", list(dct["extreme"].keys()), cats))
+            reqs.append("lbl x y 0 0")
+        if not formed:
+            raised_seen = True
+    if exc is not None and not raised_seen:
+        want.append(("stray", exc))
+        reqs.append("lbl x y 0 0")
+    if spec["case_order"] is not None:
+        branches.add("labels-case-order")
+    return reqs, want, branches, top, exc
+
+
+def labform_compare(spec, reqs, want, got):
+    """first difference between the model's replies and the implementation, or None"""
+    errs = []  # model errors of the level that raised: (j, category position, kind)
+    exc = None
+    for rq, w, g in zip(reqs, want, got):
+        if w[0] == "acc":
+            if g != w[1]:
+                return {"request": rq[:400], "impl": w[1], "model": g}
+        elif w[0] == "cats":
+            return {"what": "categories of the new 'extreme'", "impl": w[1], "model": w[2]}
+        elif w[0] == "stray":
+            return {"what": "form_extreme raised although every level was formed", "impl": w[1], "model": "no exception"}
+        else:
+            _, exc, drm, dct, cases = w
+            t = g.split()
+            if t and t[0] in ("value-error", "key-error"):
+                j = int(t[1])
+                m = dct[cases[j]]
+                cur = m["extreme"] if "extreme" in m else m
+                errs.append((j, list(cur.keys()).index(drm), t[0]))
+    if exc is not None:
+        model = min(errs)[2] if errs else "no exception"
+        impl = {"ValueError": "value-error", "KeyError": "key-error"}[exc]
+        if model != impl:
+            return {"what": "exception raised by form_extreme", "impl": exc, "model": model}
+    return None
+
+
+_LAB_FIXED = [
+    # (pattern, shape) pairs every run starts with, so that each overlap pattern is met whatever the seed
+    ("identical", "flat"), ("permuted", "flat"), ("subset", "flat"), ("disjoint", "flat"), ("overlap", "flat"),
+    ("dup-identical", "flat"), ("dup-differ", "flat"), ("permuted", "nested"), ("overlap", "nested"),
+    ("permuted", "mixedx"), ("overlap", "mixedx"), ("subset", "mixedx"),
+]
+
+
+def lab_specs(rng, n):
+    out = []
+    for rep in range(3):
+        for pat, shape in _LAB_FIXED:
+            out.append(gen_labform(rng, pat, shape))
+    # the demonstration of the seeded change C16r3/1 in small: the same rows in another order, a third event with some
+    out.append({"kind": "labform", "pattern": "permuted", "shape": "flat", "d": 2, "case_order": None, "two": False, "members": [
+        {"type": "time", "name": "Liftoff", "labels": ["Fx", "Fy", "Mz"], "labels2": None, "nt": 3,
+         "resp": [[[1.0, 2.0, 0.0], [3.0, -4.0, 0.0], [5.0, 6.0, 0.0]]]},
+        {"type": "time", "name": "MaxQ", "labels": ["Mz", "Fx", "Fy"], "labels2": None, "nt": 3,
+         "resp": [[[10.0, 0.0, 0.0], [-1.0, 0.0, 0.0], [7.0, -9.0, 0.0]]]},
+        {"type": "time", "name": "SECO", "labels": ["Fy", "Fx"], "labels2": None, "nt": 3,
+         "resp": [[[0.0, 8.0, -20.0], [4.0, 0.0, 1.0]]]}]})
+    out += [gen_labform(rng) for _ in range(n)]
+    return out
+
+
+# ---------------------------------------------------------------------------------------
 # correspondence
 
 
@@ -1978,6 +2376,13 @@ def correspondence(ctx):
                     rq.append("statext %s ; %s ; %s" % (f2b(c["k"]), fbits(S[:, a, b]), fbits(S[:, a, b])))
         add("stat-ext", c, rq, None)
 
+    for spec in lab_specs(rng, ctx.pick(250, 1500)):
+        rq, want, branches, _, _ = labform_run(spec)
+        add("labform", spec, rq, (want, branches))
+    for _ in range(ctx.pick(400, 2500)):
+        m = gen_mergelists(rng)
+        add("mergelists", m, ["mergelists ; %s ; %s" % (" ".join(m["l1"]), " ".join(m["l2"]))], None)
+
     rep = drv.ask(reqs)
     ctx.extra["driver_requests"] = len(reqs)
     if any(r == "bad-op" for r in rep):
@@ -2168,6 +2573,25 @@ def correspondence(ctx):
             if got != payload:
                 bad = next(j for j in range(cnt) if got[j] != payload[j])
                 ctx.disagree(stream, spec, {"row": bad, "impl": payload[bad]}, {"row": bad, "model": got[bad]})
+        elif stream == "labform":
+            want, branches = payload
+            ctx.case(spec, nontrivial=any(b not in ("labels-identical", "labels-identical-repeated") and b.startswith("labels-")
+                                          for b in branches), branch="stream:labform")
+            for b in sorted(branches):
+                ctx.count("branch:" + b)
+            bad = labform_compare(spec, reqs[i0:i0 + cnt], want, got)
+            if bad is not None:
+                ctx.disagree("labform", spec, {k: v for k, v in bad.items() if k != "model"}, bad.get("model"))
+        elif stream == "mergelists":
+            from pyyeti import locate
+
+            ctx.case(spec, nontrivial=bool(spec["l1"] and spec["l2"]), branch="stream:mergelists")
+            if len(set(spec["l1"])) != len(spec["l1"]) or len(set(spec["l2"])) != len(spec["l2"]):
+                ctx.count("branch:mergelists-repeated-items")
+            m, pv1, pv2 = locate.merge_lists(list(spec["l1"]), list(spec["l2"]))
+            impl = "%s | %s | %s" % (" ".join(m), " ".join(map(str, pv1)), " ".join(map(str, pv2)))
+            if impl != got[0]:
+                ctx.disagree("mergelists", spec, impl, got[0])
         elif stream == "tree":
             want, bad_cases = payload
             depth, nstale, empty = tree_shape(spec["root"])
@@ -2245,6 +2669,12 @@ def correspondence(ctx):
         "branch:heap-form-label-lists-handed-in", "stream:psd-srs", "stream:psd-srs-env", "branch:psd-srs-eqsine",
         "branch:psd-srs-resp-time", "branch:psd-srs-with-apply-uf", "branch:psd-use-apply-uf", "branch:psd-use-apply-uf-rf",
         "branch:stat-ext-srs",
+        "stream:labform", "stream:mergelists", "branch:mergelists-repeated-items",
+        "branch:labels-identical", "branch:labels-permuted", "branch:labels-subset", "branch:labels-superset",
+        "branch:labels-superset-same-order", "branch:labels-disjoint", "branch:labels-overlap",
+        "branch:labels-identical-repeated", "branch:labels-repeated-refused", "branch:labels-keyerror-no-mx",
+        "branch:labels-abscissa-some-events", "branch:labels-abscissa-some-events-with-merge",
+        "branch:labels-lower-level-envelope", "branch:labels-category-missing-in-some-event", "branch:labels-case-order",
     ])
 
 
@@ -3038,9 +3468,283 @@ def oracle_tree(spec):
     return fails
 
 
+def _lab_base_ref(b, drm):
+    """what a base event's category must hold, by row, straight from the spec:
+    rows of (max, min, {(lower label, x) attaining the max}, {... the min}); None when the event has no such category"""
+    if b["type"] == "addmm":
+        if drm != "cat":
+            return None
+        r = len(b["labels"])
+        mxc = [b["maxcase"]] * r if isinstance(b["maxcase"], str) else list(b["maxcase"])
+        mnc = mxc if b["mincase"] is None else ([b["mincase"]] * r if isinstance(b["mincase"], str) else list(b["mincase"]))
+        rows = []
+        for i in range(r):
+            mx, mn = [NAN if v is None else v for v in b["mxmn"][i]]
+            x = b["xv"][i] if b["xv"] is not None else [NAN, NAN]
+            rows.append((mx, mn, {(mxc[i], x[0])}, {(mnc[i], x[1])}))
+        return {"labels": list(b["labels"]), "hasx": b["xv"] is not None, "rows": rows}
+    labels = b["labels"] if drm == "cat" else b["labels2"]
+    if not labels:
+        return None
+    nrows = len(b["resp"][0])
+    rows = []
+    for i in range(len(labels)):
+        src, sgn = (i, 1.0) if drm == "cat" else (nrows - 1 - i, -1.0)
+        best = {}
+        for which, pick in (("max", max), ("min", min)):
+            per = [[sgn * v for v in c[src]] for c in b["resp"]]
+            ext = pick(pick(p) for p in per)
+            att = {("%s-%d" % (b["name"], j), t * 0.01) for j, p in enumerate(per) for t, v in enumerate(p) if v == ext}
+            best[which] = (ext, att)
+        rows.append((best["max"][0], best["min"][0], best["max"][1], best["min"][1]))
+    return {"labels": list(labels), "hasx": True, "rows": rows}
+
+
+def _lab_nodes(spec):
+    out = {}
+
+    def walk(node, path):
+        out[path + (node["name"],)] = node
+        if node["type"] == "group":
+            for k in node["kids"]:
+                walk(k, path + (node["name"],))
+
+    for m in spec["members"]:
+        walk(m, ())
+    return out
+
+
+def oracle_labform(spec):
+    fails = []
+    d = spec["d"]
+    nodes = _lab_nodes(spec)
+    # 1. the parts themselves, before anything is formed
+    from pyyeti import cla
+
+    def mk(node):
+        if node["type"] != "group":
+            return _lab_build_base(node)
+        g = cla.DR_Results()
+        for kid in node["kids"]:
+            g[kid["name"]] = mk(kid)
+        return g
+
+    with warnings.catch_warnings():
+        warnings.simplefilter("ignore")
+        top = cla.DR_Results()
+        for m in spec["members"]:
+            top[m["name"]] = mk(m)
+    before = {}
+    for path, res in _walk(top):
+        if _is_base(res):
+            b = nodes[path]
+            for drm, c in res.items():
+                before[path + (drm,)] = _snapshot(c)
+                ref = _lab_base_ref(b, drm)
+                ok = ref is not None and list(c.drminfo.labels) == ref["labels"] and (c.ext_x is not None) == ref["hasx"]
+                if ok:
+                    for i, (mx, mn, amx, amn) in enumerate(ref["rows"]):
+                        gx = (NAN, NAN) if c.ext_x is None else (float(c.ext_x[i, 0]), float(c.ext_x[i, 1]))
+                        ok = ok and _same(float(c.ext[i, 0]), mx) and _same(float(c.ext[i, 1]), mn) and \
+                            any(c.maxcase[i] == l and _same(gx[0], x) for l, x in amx) and \
+                            any(c.mincase[i] == l and _same(gx[1], x) for l, x in amn)
+                if not ok:
+                    fails.append(("labels-event-table-%s" % b["type"], "event %s: category %s does not hold the extremes of its "
+                                  "rows (label by label)" % ("/".join(path), drm), spec,
+                                  [list(c.drminfo.labels), c.ext.tolist(), c.maxcase, c.mincase], ref and ref["labels"]))
+                    return fails
+    # 2. what must happen: ValueError exactly when two differing label lists meet and one repeats a label
+    with warnings.catch_warnings():
+        warnings.simplefilter("ignore")
+        try:
+            top.form_extreme("Envelope", case_order=spec["case_order"], doappend=d)
+            exc = None
+        except (ValueError, KeyError) as e:
+            exc = type(e).__name__
+    levels = lab_levels(top, spec["case_order"])
+    must_raise = False
+    for path, dct, cases in levels:
+        cats = []
+        for case in cases:
+            m = dct[case]
+            cur = m["extreme"] if "extreme" in m else m
+            cats += [c for c in cur if c not in cats]
+        for drm in cats:
+            kinds = _lab_step_kinds(_lab_parts(dct, cases, drm))
+            if "repeated-refused" in kinds:
+                must_raise = True
+        if "extreme" not in dct:
+            break
+    if exc == "ValueError" and must_raise:
+        return fails
+    if exc == "KeyError":
+        fails.append(("form-extreme-differing-rows-add-maxmin-event-keyerror",
+                      "form_extreme raises KeyError('mx') when an event made by add_maxmin lists other rows than the events "
+                      "before it (_expand looks up mx / mn / mx_x / mn_x, which such an event does not have)", spec, exc,
+                      "the envelope by label"))
+        return fails
+    if exc is not None or must_raise:
+        fails.append(("form-extreme-repeated-row-labels-" + ("accepted" if exc is None else "refusal-spurious"),
+                      "differing label lists with a repeated label must be refused with ValueError, all others accepted",
+                      spec, exc, "ValueError" if must_raise else None))
+        return fails
+    # 3. the parts are bit-identical afterwards
+    for path, res in _walk(top):
+        if _is_base(res) and "extreme" not in path:
+            for drm, c in res.items():
+                bad = _snap_diff(before[path + (drm,)], c)
+                if bad is not None or list(c.drminfo.labels) != list(nodes[path]["labels" if drm == "cat" else "labels2"]):
+                    fails.append(("form-extreme-differing-rows-modifies-part-%s" % (bad or "labels").replace(".", "-"),
+                                  "after form_extreme, `%s` of %s is no longer what the event's own recovery left there"
+                                  % (bad or "drminfo.labels", "/".join(path + (drm,))), spec, None, None))
+                    return fails
+    # 4. every level: by label, the envelope of the members that carry the label
+    for path, dct, cases in levels:
+        where = "/".join(path) or "Top"
+        ext_all = dct["extreme"]
+        for drm, ext in ext_all.items():
+            parts = _lab_parts(dct, cases, drm)
+            labs = list(ext.drminfo.labels)
+            union = []
+            for _, _, _, c in parts:
+                union += [l for l in c.drminfo.labels if l not in union]
+            uniq = all(len(set(c.drminfo.labels)) == len(c.drminfo.labels) for _, _, _, c in parts)
+            if not uniq:
+                continue  # identical lists with a repeated label: positional, the other streams' subject
+            if sorted(labs) != sorted(union):
+                fails.append(("form-extreme-by-label-row-set", "%s/%s: the rows of the envelope are not the union of the members' "
+                              "rows, each once" % (where, drm), spec, labs, union))
+                return fails
+            want_order = list(parts[0][3].drminfo.labels)
+            for _, _, _, c in parts[1:]:
+                want_order = _ref_merge(want_order, list(c.drminfo.labels))
+            if labs != want_order:
+                fails.append(("form-extreme-by-label-row-order", "%s/%s: the order of the rows is not the documented merge (first "
+                              "event's order kept, new rows in front of the next common row)" % (where, drm), spec, labs, want_order))
+                return fails
+            if list(ext.cases) != list(cases):
+                fails.append(("form-extreme-by-label-cases", "%s/%s: cases" % (where, drm), spec, list(ext.cases), list(cases)))
+                return fails
+            anyx = [c.ext_x is not None for _, _, _, c in parts]
+            if not any(anyx) and ext.ext_x is not None:
+                fails.append(("form-extreme-by-label-abscissa-invented", "%s/%s: ext_x appeared although no member has one"
+                              % (where, drm), spec, "array", None))
+                return fails
+            if all(anyx) and ext.ext_x is None:
+                fails.append(("form-extreme-by-label-abscissa-lost", "%s/%s: ext_x is None although every member has one"
+                              % (where, drm), spec, None, "array"))
+                return fails
+            for i, lbl in enumerate(labs):
+                have = [(j, case, u, c, list(c.drminfo.labels).index(lbl)) for j, case, u, c in parts if lbl in c.drminfo.labels]
+                for col, pick, which in ((0, _fmax, "max"), (1, _fmin, "min")):
+                    vals = [float(c.ext[r, col]) for _, _, _, c, r in have]
+                    want = pick(vals)
+                    got = float(ext.ext[i, col])
+                    if not _same(got, want):
+                        fails.append(("form-extreme-by-label-wrong-" + which, "%s/%s row %r: %s %r is not the %s over the members "
+                                      "that carry the row (%r)" % (where, drm, lbl, which, got, which, vals), spec, got, want))
+                        return fails
+                    if want != want:
+                        continue
+                    lab = (ext.maxcase if col == 0 else ext.mincase)[i]
+                    gov = []
+                    for (j, case, u, c, r), v in zip(have, vals):
+                        if not _same(v, want):
+                            continue
+                        low = (c.maxcase if col == 0 else c.mincase)[r]
+                        dd = 1 if (u and d == 2) else d
+                        if lab == (case + "," + low if dd == 1 else (low if dd == 3 else case)):
+                            gov.append((c, r))
+                    if not gov:
+                        fails.append(("form-extreme-by-label-label-doappend-%d" % d, "%s/%s row %r: the %s label %r names no member "
+                                      "attaining %r" % (where, drm, lbl, which, lab, want), spec, lab, [case for _, case, _, _, _ in have]))
+                        return fails
+                    gx = NAN if ext.ext_x is None else float(ext.ext_x[i, col])
+                    okx = any(_same(gx, NAN if c.ext_x is None else float(c.ext_x[r, col])) for c, r in gov)
+                    if not okx:
+                        if all(c.ext_x is None for c, r in gov):
+                            fails.append(("form-extreme-abscissa-of-another-event-when-governing-event-has-none",
+                                          "%s/%s row %r: the %s is governed by %r, which has no abscissae, but the envelope reports "
+                                          "the abscissa %r (taken from another member: _put_time copies that member's whole ext_x "
+                                          "when the envelope has none yet)" % (where, drm, lbl, which, lab, gx), spec, gx, NAN))
+                        else:
+                            fails.append(("form-extreme-by-label-abscissa", "%s/%s row %r: the %s abscissa %r is not that of the "
+                                          "governing member %r" % (where, drm, lbl, which, gx, lab), spec, gx,
+                                          [None if c.ext_x is None else float(c.ext_x[r, col]) for c, r in gov]))
+                        return fails
+                # per-case columns, in case order, NaN for the members without the row
+                for j, case in enumerate(cases):
+                    hit = [(c, r) for jj, _, _, c, r in have if jj == j]
+                    want4 = [NAN] * 4
+                    if hit:
+                        c, r = hit[0]
+                        want4 = [float(c.ext[r, 0]), float(c.ext[r, 1]),
+                                 NAN if c.ext_x is None else float(c.ext_x[r, 0]), NAN if c.ext_x is None else float(c.ext_x[r, 1])]
+                    got4 = [float(ext.mx[i, j]), float(ext.mn[i, j]), float(ext.mx_x[i, j]), float(ext.mn_x[i, j])]
+                    if not all(_same(a, b) for a, b in zip(got4, want4)):
+                        fails.append(("form-extreme-by-label-per-case-column", "%s/%s row %r column %d (%s): mx, mn, mx_x, mn_x"
+                                      % (where, drm, lbl, j, case), spec, got4, want4))
+                        return fails
+    # 5. values by label do not depend on the order of the events
+    if spec["case_order"] is None and len(spec["members"]) > 1:
+        top2, exc2 = build_labform(spec, order=list(range(len(spec["members"])))[::-1])
+        if exc2 == "KeyError":
+            fails.append(("form-extreme-differing-rows-add-maxmin-event-keyerror",
+                          "form_extreme raises KeyError('mx') when the same events are given in reverse order (an event made by "
+                          "add_maxmin then comes after events that list other rows)", spec, exc2, "the envelope by label"))
+        elif exc2 is not None:
+            fails.append(("form-extreme-by-label-order-dependent-refusal", "the reversed event order is refused", spec, exc2, None))
+        else:
+            for drm, ext in top["extreme"].items():
+                e2 = top2["extreme"][drm]
+                if len(set(ext.drminfo.labels)) != len(ext.drminfo.labels):
+                    continue
+                a = {l: [float(v) for v in ext.ext[i]] for i, l in enumerate(ext.drminfo.labels)}
+                b = {l: [float(v) for v in e2.ext[i]] for i, l in enumerate(e2.drminfo.labels)}
+                if set(a) != set(b) or any(not (_same(a[l][0], b[l][0]) and _same(a[l][1], b[l][1])) for l in a):
+                    fails.append(("form-extreme-by-label-order-dependent-values", "%s: the extreme values of a row change when the "
+                                  "events are given in reverse order" % drm, spec, b, a))
+                    break
+    return fails
+
+
+def gen_mergelists(rng):
+    pool = ["a", "b", "c", "d", "e", "f", "g"]
+    k = rng.random()
+    n1, n2 = rng.randint(0, 5), rng.randint(0, 5)
+    if k < 0.7:
+        l1, l2 = rng.sample(pool, n1), rng.sample(pool, n2)
+    else:
+        l1 = [rng.choice(pool[:4]) for _ in range(n1)]
+        l2 = [rng.choice(pool[:4]) for _ in range(n2)]
+    return {"kind": "mergelists", "l1": l1, "l2": l2}
+
+
+def oracle_mergelists(spec):
+    from pyyeti import locate
+
+    l1, l2 = list(spec["l1"]), list(spec["l2"])
+    m, pv1, pv2 = locate.merge_lists(list(l1), list(l2))
+    fails = []
+    if [m[i] for i in pv1] != l1 or [m[i] for i in pv2] != l2:
+        fails.append(("merge-lists-index-maps", "list1 = [mlist[i] for i in pv1] and list2 = [mlist[i] for i in pv2]", spec,
+                      [m, pv1, pv2], [l1, l2]))
+    elif set(m) != set(l1) | set(l2) or (len(set(l1)) == len(l1) and len(set(l2)) == len(l2) and len(set(m)) != len(m)):
+        fails.append(("merge-lists-items", "the merged list holds the items of both lists, each once when neither repeats one",
+                      spec, m, sorted(set(l1) | set(l2))))
+    elif len(set(l1)) == len(l1) and len(set(l2)) == len(l2):
+        if [x for x in m if x in l1] != l1:
+            fails.append(("merge-lists-order-of-list1", "the order of list1 is maintained", spec, m, l1))
+        elif m != _ref_merge(l1, l2):
+            fails.append(("merge-lists-position-of-new-items", "a new item of list2 goes in front of the next common item (or to "
+                          "the end)", spec, m, _ref_merge(l1, l2)))
+    return fails
+
+
 _ORACLES = {"ext1": oracle_hist, "ext2": oracle_hist, "mm": oracle_mm, "event": oracle_event,
             "form": oracle_form, "uf": oracle_uf, "psd": oracle_psd, "merge": oracle_merge, "calc": oracle_calc,
-            "stat": oracle_calc, "addmm": oracle_addmm, "tree": oracle_tree}
+            "stat": oracle_calc, "addmm": oracle_addmm, "tree": oracle_tree, "labform": oracle_labform,
+            "mergelists": oracle_mergelists}
 
 
 def _run_oracle(ctx, spec):
@@ -3087,6 +3791,10 @@ def search(ctx, hints):
         _run_oracle(ctx, gen_tree(rng))
     for _ in range(ctx.pick(150, 1000)):
         _run_oracle(ctx, gen_heap_hist(rng))
+    for spec in lab_specs(rng, ctx.pick(150, 900)):
+        _run_oracle(ctx, spec)
+    for _ in range(ctx.pick(300, 2000)):
+        _run_oracle(ctx, gen_mergelists(rng))
 
 
 def replay(ctx, data):
